@@ -792,6 +792,11 @@ def run(ck):
     ck.notes["coq_seconds"] = round(time.time() - t1, 1)
     from translate import regen
     ck.notes["tdata"] = regen.status().get("tdata_misc")
+    try:       # structural facts the hand-written model hard-wires that the source no longer shows (advisory)
+        ck.notes["tdata_advisory"] = json.load(open(os.path.join(common.WORK, "tdata_misc_notes.json")))
+    except (OSError, ValueError):
+        ck.notes["tdata_advisory"] = None
+    ck.notes["known_signatures"] = {k: v[0] for k, v in known_table(ck).items()}
     ck.cov["rule"] = (
         "corpus; seeded studies built from YAML like `maestro run` does (1-4 steps, 0-3 parameters x 1-4 rows, label "
         "templates, ordinary/funnel dependencies, restart commands; hashws/usetmp/adapter local|slurm|lsf|flux, dry run or "
@@ -799,7 +804,8 @@ def run(ck):
         "exotic stream with spaces, slashes, dots, quotes, signs, unicode, '..', empty-sanitising strings and exotic step "
         "names; staged and executed with the real adapters.  Compared with the model inside Coq: every workspace, every "
         "script/restart path write_script opened and returned, every .out/.err path submit opened, the directory tree; "
-        "C10_ok evaluated on the implementation's paths.  Plus posixpath.join/normpath (exhaustive over {/,.,a} up to the "
+        "C10_ok evaluated on the implementation's paths; a failing monitor is excused only by a signature predicate "
+        "(sig_collide / sig_slash / sig_degenerate, evaluated in Coq) that is listed in KNOWN_FINDINGS.txt.  Plus posixpath.join/normpath (exhaustive over {/,.,a} up to the "
         "bound, and random) and make_safe_path (every code point < 0x250, random unicode) against the model.  "
         "distinct = (instances, flags); non-trivial = at least two instances")
     ck.cov["traces_validated_against_impl"] = len(cases)
